@@ -121,7 +121,7 @@ def handle (st : DStore.DState) (l : Line) : Option (DStore.DState × Except Str
       let cfg ← cfgOf l
       let hooks := hooksOf l
       let vc := Gen.Validate.UDP.validate { PrivateKey_empty := false, MaxNumWant := (← l.nat "maxnw"), DefaultNumWant := (← l.nat "defnw"),
-                                             MaxScrapeInfoHashes := (← l.nat "maxscrape") }
+                                             MaxScrapeInfoHashes := (← l.nat "maxscrape"), MaxClockSkew := skew }
       let opts : ParseOpts := { allowIPSpoofing := (← l.bool "spoof"), realIPHeaderSet := false, maxNumWant := vc.MaxNumWant.toNat,
                                  defaultNumWant := vc.DefaultNumWant.toNat, maxScrapeInfoHashes := vc.MaxScrapeInfoHashes.toNat }
       let lower : Bytes → Bytes := Query.asciiLower   -- parseQuery lower-cases ASCII letters only (D27)
@@ -129,7 +129,7 @@ def handle (st : DStore.DState) (l : Line) : Option (DStore.DState × Except Str
       let m2 := Bytes.be32 ((now / 1000000000) % 2^32).toNat ++ src
       let mac : Udp.Mac := fun _ msg => if msg == m1 then tag ++ List.replicate 28 0 else if msg == m2 then gtag ++ List.replicate 28 0 else List.replicate 32 0
       let st0 := { st with clock := now }
-      let res := Udp.handleRequest mac lower { key := [], skewNs := skew, opts := opts } (Tracker.udpLogic cfg (opsOf st0) hooks st0) now pkt src
+      let res := Udp.handleRequest mac lower { key := [], skewNs := vc.MaxClockSkew, opts := opts } (Tracker.udpLogic cfg (opsOf st0) hooks st0) now pkt src
       if res.panic then return (st0, "PANIC\tpanic")
       let (st', plog0) := Tracker.udpStoreAfter cfg (opsOf st0) hooks st0 res
       let plog := match res.after, res.call with
